@@ -19,6 +19,9 @@ def check(run):
              '`start.unwrap_or(0)..=end` with a pairwise null skip on both series')
     for cfg in configs(run):
         F = run.facts(cfg)
+        # helpers this property stands on (rule sets owned by other properties, see common.deps)
+        from common import deps as _deps
+        _deps(run, F, 'drivers', 'isnone', 'accessors', 'agg_gates', 'casts')
         ks = [k for k in find_kernels(F) if k.fn.file.endswith(('tea-rolling/src/binary.rs',
                                                                 'tea-rolling/src/reg.rs'))]
         run.floor('ACC', 'rolling kernels in binary.rs + reg.rs', len(ks), 13)
@@ -37,6 +40,9 @@ def check(run):
         run.rule('CAS.form', casrules.RULE)
         n = casrules.check_rolling(run, run.facts('base'), ('binary.rs', 'reg.rs'))
         run.floor('CAS.form', 'closed forms compared with their reference', n, 12)
+    # every container the generic code can be instantiated with hands out its elements in logical order
+    from common import dep_backends as _dep_backends
+    _dep_backends(run)
     return run.finish(
         'other',
         'Structural necessary conditions: every accumulator of the 13 covariance / correlation '
